@@ -18,7 +18,7 @@ CONFIG = {
              'parent of existing is a directory, read ok <=> is_file, error classes); evaluations = '
              'builds judged; distinct_nontrivial = distinct (program shape, step kinds) histories with '
              '>=1 hit and >=1 miss; queries_judged / law_evals are in counters'),
-    'gates': ['queries_judged', 'bursts', 'law_evals', 'builds_committed', 'raised_calls',
+    'gates': ['overlay_cases', 'queries_judged', 'bursts', 'law_evals', 'builds_committed', 'raised_calls',
               'setup_failures'],
 }
 
@@ -50,6 +50,8 @@ def run_shard(sh):
 
     def gp(rng, cfg):
         return add_bursts(rng, cfg, orig(rng, cfg))
+    from .overlaycases import run_overlay_cases
+    run_overlay_cases(sh, select, stride=2 if sh.tier == 'quick' else 1)
     common.gen_program = gp
     try:
         def after_build(w, program, sr, ctx):
